@@ -388,6 +388,8 @@ func (e StdEng) Inner(a, b Tensor) (retVal interface{}, err error) {
 	if ad, bd, err = e.checkTwoFloatComplexTensors(a, b); err != nil {
 		return nil, errors.Wrapf(err, opFail, "StdEng.Inner")
 	}
+	_, ad = contiguousForBLAS(a, ad)
+	_, bd = contiguousForBLAS(b, bd)
 
 	switch A := ad.Data().(type) {
 	case []float32:
@@ -416,6 +418,8 @@ func (e StdEng) MatVecMul(a, b, prealloc Tensor) (err error) {
 	if ad, bd, pd, err = e.checkThreeFloatComplexTensors(a, b, prealloc); err != nil {
 		return errors.Wrapf(err, opFail, "StdEng.MatVecMul")
 	}
+	a, ad = contiguousForBLAS(a, ad)
+	b, bd = contiguousForBLAS(b, bd)
 
 	m := ad.oshape()[0]
 	n := ad.oshape()[1]
@@ -488,6 +492,8 @@ func (e StdEng) MatMul(a, b, prealloc Tensor) (err error) {
 	if ad, bd, pd, err = e.checkThreeFloatComplexTensors(a, b, prealloc); err != nil {
 		return errors.Wrapf(err, opFail, "StdEng.MatMul")
 	}
+	a, ad = contiguousForBLAS(a, ad)
+	b, bd = contiguousForBLAS(b, bd)
 
 	ado := a.DataOrder()
 	bdo := b.DataOrder()
@@ -596,6 +602,8 @@ func (e StdEng) Outer(a, b, prealloc Tensor) (err error) {
 	if ad, bd, pd, err = e.checkThreeFloatComplexTensors(a, b, prealloc); err != nil {
 		return errors.Wrapf(err, opFail, "StdEng.Outer")
 	}
+	a, ad = contiguousForBLAS(a, ad)
+	b, bd = contiguousForBLAS(b, bd)
 
 	m := ad.Size()
 	n := bd.Size()
@@ -662,6 +670,19 @@ func (e StdEng) Outer(a, b, prealloc Tensor) (err error) {
 }
 
 /* UNEXPORTED UTILITY FUNCTIONS */
+
+// contiguousForBLAS returns the operand BLAS may read. BLAS walks raw storage with a single leading dimension (and
+// the transposition flag derived from a lazy transpose), which describes contiguous tensors only: a view that needs
+// an iterator (inner-axis or stepped slices, transposed views) would be multiplied from the wrong storage cells, so
+// it is replaced by a contiguous copy of its logical content.
+func contiguousForBLAS(t Tensor, d DenseTensor) (Tensor, DenseTensor) {
+	if v, ok := t.(View); ok && v.IsView() && d.RequiresIterator() {
+		if m, ok := v.Materialize().(DenseTensor); ok {
+			return m, m
+		}
+	}
+	return t, d
+}
 
 func (e StdEng) checkTwoFloatTensors(a, b Tensor) (ad, bd DenseTensor, err error) {
 	if err = e.checkAccessible(a); err != nil {
